@@ -22,7 +22,7 @@ def toCalls : Expr → Expr
   | .call f args kwn kwv =>
     match toCalls f with
     | .attr v a =>
-      if a ∈ opNames then fcall a (v :: toCallsL args)
+      if a ∈ opNames then .call (.name a) (v :: toCallsL args) kwn (toCallsL kwv)   -- keyword arguments stay with the call
       else .call (.attr v a) (toCallsL args) kwn (toCallsL kwv)
     | f' => .call f' (toCallsL args) kwn (toCallsL kwv)
   | .lam ps b => .lam ps (toCalls b)
